@@ -272,6 +272,9 @@ func runC03(c *ctx) {
 	for g := 0; g < 3*c.scale; g++ {
 		cfg := bs.DefaultBloomSearchEngineConfig()
 		cfg.RowDataCompression = pick(r, []bs.CompressionType{bs.CompressionNone, bs.CompressionSnappy, bs.CompressionZstd})
+		if g == 0 {
+			cfg.RowDataCompression = bs.CompressionNone // the first group always exercises the legacy metadata value
+		}
 		cfg.MaxBufferedRows = 5 + r.IntN(40)
 		cfg.MaxQueryConcurrency = pick(r, []int{1, 2, 4})
 		env := NewEnv(cfg)
@@ -285,7 +288,7 @@ func runC03(c *ctx) {
 			}
 			env.IngestWait(batch)
 		}
-		if cfg.RowDataCompression == bs.CompressionNone && r.Chance(0.6) {
+		if cfg.RowDataCompression == bs.CompressionNone && (g == 0 || r.Chance(0.6)) {
 			// legacy metadata: files written before the compression field existed carry "" (read as none)
 			files, _ := AllFiles(env.Meta)
 			for _, f := range files {
